@@ -298,9 +298,40 @@ func c10Check(coll geojson.Object, expectChildren []string, probes []geojson.Obj
 			if g := coll.Within(x); g != mw {
 				return fmt.Sprintf("within(probe %d)", pi), fmt.Sprintf("%v: non-empty and every child within %s", mw, x.JSON()), fmt.Sprint(g)
 			}
+			// the collection's Spatial interface given the probe's raw geometry
+			if bg := baseGeometry(x); bg != nil {
+				sw, si, ok := spatialAnswers(coll, bg)
+				w.Evals += 2
+				if ok && (sw != mw || si != mi) {
+					return fmt.Sprintf("spatial-interface(probe %d)", pi), fmt.Sprintf("within=%v intersects=%v for %s", mw, mi, x.JSON()), fmt.Sprintf("Spatial(): within=%v intersects=%v", sw, si)
+				}
+			}
 		}
 	}
 	return "", "", ""
+}
+
+// baseGeometry: the raw geometry of a leaf probe object (nil for anything else).
+func baseGeometry(x geojson.Object) geometry.Geometry {
+	switch v := x.(type) {
+	case *geojson.Point:
+		return v.Base()
+	case *geojson.SimplePoint:
+		return v.Base()
+	case *geojson.Rect:
+		return v.Base()
+	case *geojson.LineString:
+		if v.Empty() {
+			return nil
+		}
+		return v.Base()
+	case *geojson.Polygon:
+		if v.Empty() {
+			return nil
+		}
+		return v.Base()
+	}
+	return nil
 }
 
 type c10kind struct {
@@ -461,7 +492,7 @@ func runC10(r *rt.Run) {
 	}
 	r.Bounds["child_sequence_depth"] = map[string]int{"GeometryCollection/FeatureCollection (alphabet 10)": depth, "Multi* (alphabet 4)": mdepth}
 	r.Bounds["thresholds"] = "IndexChildren in {0, 1, n, n+1, 64} through Parse; constructor (64)"
-	r.Rule = "every child sequence up to the depth for the five collection kinds (alphabet: two points, two lines, two polygons, empty line, empty collection, nested collection, feature; duplicates occur as repeated letters), realised by constructor and by Parse under each child-index threshold; large families of 31..1025 children (grid, cluster + outlier, duplicates, mixed with empty children, non-empty Multi* / nested / Feature children holding empty members); probes: 28 objects of every kind incl. empties and nested collections x 3 predicates, ~170 query rectangles x every stop position; oracle = the statement evaluated over the real children; non-trivial = at least one non-empty child"
+	r.Rule = "every child sequence up to the depth for the five collection kinds (alphabet: two points, two lines, two polygons, empty line, empty collection, nested collection, feature; duplicates occur as repeated letters), realised by constructor and by Parse under each child-index threshold; large families of 31..1025 children (grid, cluster + outlier, duplicates, mixed with empty children, non-empty Multi* / nested / Feature children holding empty members); probes: 28 objects of every kind incl. empties and nested collections x 3 predicates (and the collection's Spatial interface given each leaf probe's raw geometry), ~170 query rectangles x every stop position; oracle = the statement evaluated over the real children; non-trivial = at least one non-empty child"
 	r.Assume = []string{"leaf answers (child vs part) are taken from the real code: this check isolates wrapper / index logic", "within is checked for non-collection X; for collection X it is X's contains clause (duality)"}
 	probes := c10Probes()
 	r.Bounds["probes"] = len(probes)
